@@ -8,6 +8,16 @@ use std::sync::Mutex;
 pub static PROGRESS: AtomicU64 = AtomicU64::new(0);
 pub static CURRENT: Mutex<String> = Mutex::new(String::new());
 
+/// process CPU time in seconds (utime+stime of /proc/self/stat, all threads)
+pub fn cpu_s() -> f64 {
+    let s = std::fs::read_to_string("/proc/self/stat").unwrap_or_default();
+    let after = s.rsplit_once(')').map(|x| x.1).unwrap_or("");
+    let f: Vec<&str> = after.split_whitespace().collect();
+    let ut: f64 = f.get(11).and_then(|x| x.parse().ok()).unwrap_or(0.0);
+    let st: f64 = f.get(12).and_then(|x| x.parse().ok()).unwrap_or(0.0);
+    (ut + st) / 100.0
+}
+
 #[derive(Clone, Debug)]
 pub struct Ctx {
     pub prop: String,
